@@ -726,7 +726,7 @@ def C11.keysOf (opts : List (String × JVal)) : List String :=
 
 def C11.setHookStep (u : Nat) (h : String × JVal) (err : Option Exc) : M (ForInStep (Option Exc)) :=
   if err.isNone = true then do
-    let r ← syncPlain "watcher_set_opt" (setOptBody u ("hooks." ++ h.1) h.2 true)
+    let r ← syncPlain "watcher_set_opt" (setOptBody u ("hooks." ++ h.1) h.2 false)
     match r with
       | .error e => pure (.yield (some e))
       | .ok _ => pure (.yield err)
@@ -739,7 +739,7 @@ def C11.setKeyStep (u : Nat) (opts : List (String × JVal)) (key : String) (st :
       match ((JVal.obj opts).get? key).getD .null with
       | .obj hs => do
         let e ← forIn hs st.2 (setHookStep u)
-        pure (.yield (st.1, e))
+        if (!hs.isEmpty) = true then pure (.yield (0, e)) else pure (.yield (st.1, e))
       | _ => pure (.yield (st.1, st.2))
     else do
       let r ← syncPlain "watcher_set_opt" (setOptBody u key (((JVal.obj opts).get? key).getD .null) false)
@@ -790,7 +790,9 @@ theorem C11.setKeyStep_busy (u : Nat) (opts : List (String × JVal)) (s : State)
         obtain ⟨e, he, hpe⟩ := forIn_fixed (fun e => e = none ∨ e = some Exc.conflict) s (setHookStep u)
           (fun a b hb' => setHookStep_busy u s hb a b hb') hs st.2 hp
         rw [bind_run, he]
-        exact ⟨_, rfl, hpe⟩
+        by_cases hem : (!hs.isEmpty) = true
+        · erw [if_pos hem]; exact ⟨_, rfl, hpe⟩
+        · erw [if_neg hem]; exact ⟨_, rfl, hpe⟩
       | _ => exact ⟨_, rfl, hp⟩
     · erw [if_neg hk]
       rw [bind_run, syncPlain_busy _ _ s hb]
@@ -2382,8 +2384,8 @@ theorem C11.setHookStep_free (u : Nat) (a0 : Arbiter) (hs : a0.slot = none) (hr 
   by_cases hn : err.isNone = true
   · erw [if_pos hn]
     rw [bind_run]
-    obtain ⟨h1, h2⟩ := syncSetOpt_free u ("hooks." ++ h.1) h.2 true s hb
-    generalize syncPlain "watcher_set_opt" (setOptBody u ("hooks." ++ h.1) h.2 true) s = r at h1 h2
+    obtain ⟨h1, h2⟩ := syncSetOpt_free u ("hooks." ++ h.1) h.2 false s hb
+    generalize syncPlain "watcher_set_opt" (setOptBody u ("hooks." ++ h.1) h.2 false) s = r at h1 h2
     obtain ⟨r, s1⟩ := r
     simp only at h1 h2
     rcases h2 with rfl | rfl
@@ -2409,7 +2411,9 @@ theorem C11.setKeyStep_free (u : Nat) (opts : List (String × JVal)) (a0 : Arbit
         rw [bind_run]
         obtain ⟨h1, h2⟩ := forIn_inv (fun s' => s'.a = a0) onlyValueError (setHookStep u)
           (fun a b s' hi' hp' => setHookStep_free u a0 hs hr a b s' hi' hp') hs' st.2 s hi hp
-        exact ⟨h1, _, rfl, h2⟩
+        by_cases hem : (!hs'.isEmpty) = true
+        · erw [if_pos hem]; exact ⟨h1, _, rfl, h2⟩
+        · erw [if_neg hem]; exact ⟨h1, _, rfl, h2⟩
       | _ => exact ⟨hi, _, rfl, hp⟩
     · erw [if_neg hk]
       rw [bind_run]
